@@ -209,6 +209,14 @@ func substSXb(x *SX, env EnvFn, bound map[string]bool, old bool) string {
 		}
 		return "(let (" + strings.Join(bs, " ") + ") " + substSXb(x.List[2], env, nb, old) + ")"
 	}
+	if strings.HasPrefix(head, "$at<") && len(x.List) == 2 {
+		// ($at<heap> p): the object at address p as the code would read it now (own objects from the
+		// current heap, pre-existing ones from the frozen heap); resolved by the environment
+		arg := substSXb(x.List[1], env, bound, old)
+		if v, ok := env(head+":"+arg, old); ok {
+			return v
+		}
+	}
 	if head == "_" || head == "as" {
 		// indexed identifiers / qualified: (_ is box<T>), (as const (Array ..)): no substitution
 		return x.String()
